@@ -116,6 +116,74 @@ fn fp_string(fp: &grenad::verif::CursorFingerprint) -> String {
     format!("I={};D={}", idx, data)
 }
 
+pub fn op_token(op: &Op) -> String {
+    match op {
+        Op::First => "first -".to_string(),
+        Op::Last => "last -".to_string(),
+        Op::Next => "next -".to_string(),
+        Op::Prev => "prev -".to_string(),
+        Op::Ge(q) => format!("ge {}", hex(q)),
+        Op::Le(q) => format!("le {}", hex(q)),
+        Op::Eq(q) => format!("eq {}", hex(q)),
+        Op::Reset => "reset -".to_string(),
+        Op::Current => "current -".to_string(),
+        Op::Clone(n) => format!("clone {}", n),
+    }
+}
+
+pub fn apply_op<R: Read + Seek>(cur: &mut ReaderCursor<R>, op: &Op) -> Result<Option<(Vec<u8>, Vec<u8>)>, String> {
+    let r = match op {
+        Op::First => cur.move_on_first(),
+        Op::Last => cur.move_on_last(),
+        Op::Next => cur.move_on_next(),
+        Op::Prev => cur.move_on_prev(),
+        Op::Ge(q) => cur.move_on_key_greater_than_or_equal_to(q),
+        Op::Le(q) => cur.move_on_key_lower_than_or_equal_to(q),
+        Op::Eq(q) => cur.move_on_key_equal_to(q),
+        Op::Reset => {
+            cur.reset();
+            Ok(None)
+        }
+        Op::Current => Ok(cur.current()),
+        Op::Clone(_) => unreachable!(),
+    };
+    r.map(|o| o.map(|(k, v)| (k.to_vec(), v.to_vec()))).map_err(|e| err_class(&e))
+}
+
+/// Runs a history on any source; one result line per operation (no counters, no fingerprints).
+pub fn run_history_on<R: Read + Seek + Clone>(src: R, ops: &[(usize, Op)]) -> Result<Vec<String>, String> {
+    let reader = match catch(|| Reader::new(src)) {
+        Ok(Ok(r)) => r,
+        Ok(Err(e)) => return Err(format!("open err {}", err_class(&e))),
+        Err(_) => return Err("open panic".to_string()),
+    };
+    let mut cursors: Vec<Option<ReaderCursor<R>>> = vec![Some(reader.into_cursor().map_err(|e| err_class(&e))?)];
+    let mut lines = Vec::new();
+    for (cid, op) in ops {
+        if let Op::Clone(newid) = op {
+            let c = cursors[*cid].as_ref().unwrap().clone();
+            while cursors.len() <= *newid {
+                cursors.push(None);
+            }
+            cursors[*newid] = Some(c);
+            continue;
+        }
+        let cur = cursors[*cid].as_mut().unwrap();
+        match catch(|| apply_op(cur, op)) {
+            Ok(Ok(x)) => lines.push(format!("{:?}", x)),
+            Ok(Err(e)) => {
+                lines.push(format!("E {}", e));
+                break;
+            }
+            Err(_) => {
+                lines.push("P".to_string());
+                break;
+            }
+        }
+    }
+    Ok(lines)
+}
+
 /// Runs a history on the real cursor(s); one output line per operation.
 pub fn run_history(file: &[u8], ops: &[(usize, Op)], with_fp: bool) -> Result<Vec<String>, String> {
     let src = Counting::new(file.to_vec());
